@@ -37,8 +37,8 @@
      construct_mesh_fails_loudly).
    * routing: full for the documented forms (route_ lemmas). *)
 From Coq Require Import Reals ZArith Bool List Arith QArith Sorted.
-From V Require Import Base.FieldSig Base.ExecQ Model.Gridding Model.GriddingExec Proofs.Gridding
-  Proofs.GriddingSea.
+From V Require Import Base.FieldSig Base.ExecQ Model.Gridding Model.GriddingExec Model.GriddingSession Proofs.Gridding
+  Proofs.GriddingSea Proofs.GriddingSession.
 Import ListNotations.
 Local Open Scope R_scope.
 
@@ -450,3 +450,148 @@ Proof.
         (conj (route_kw_num v) (conj (route_kw_bool bo) (route_kw_pair a b))))))))).
 Qed.
 Print Assumptions argument_routing.
+
+(* ===================================================================== *)
+(* Round 7: ONE SESSION.  Model/GriddingSession.v: a history of gridding calls
+   (good_mg_cell_nr, origin_and_widths, construct_mesh) interleaved with in-place
+   edits of the arrays the caller holds.  The state of the model is the caller's
+   heap and nothing else -- the table of permitted cell numbers is the function
+   good_mg_cell_nr, not a stored table.  The theorems hold for ALL histories and
+   ALL heaps (no reachability side condition needed).  That emg3d.meshes really
+   has no state is what the history stream of py/props/c16.py checks on every
+   run (every outcome and the whole heap, in one process) together with the
+   source anchor (no decorator / global / module-level mutable table in the
+   gridding functions). *)
+Section SessionAny.
+  Context {F : Type} {O : FOps F}.
+  Variable leb : F -> F -> bool.
+  Variable floorZ : F -> Z.
+  Variable brentq : F -> F -> Z -> F.
+  Variable argsort13 : list F -> list nat.
+  Variable twopi : F.
+  Variable skin : F -> F.
+  Notation step := (step leb floorZ brentq argsort13 twopi skin).
+  Notation run := (run leb floorZ brentq argsort13 twopi skin).
+
+  (* a mesh request is a function of its arguments: after any two histories
+     (whatever was called, whatever returned array was edited in place) the same
+     request -- one that names no heap array -- has the same outcome *)
+  Theorem request_is_function_of_arguments (h1 h2 : list (@Op F)) (s1 s2 : @Heap F) op :
+    closed_op op = true ->
+    snd (step (fst (run h1 s1)) op) = snd (step (fst (run h2 s2)) op).
+  Proof. exact (closed_outcome_any_history leb floorZ brentq argsort13 twopi skin h1 h2 s1 s2 op). Qed.
+
+  (* with heap arrays as arguments: only their CURRENT content matters *)
+  Theorem request_depends_on_argument_arrays_only (s : @Heap F) i cells vec l v :
+    resolve_cells s cells = Some l -> resolve_vec s i vec = Some v ->
+    snd (step s (OOaw i cells vec))
+    = ROaw (origin_and_widths leb floorZ brentq argsort13 twopi (oaw_with i l v)).
+  Proof. exact (oaw_outcome_resolved leb floorZ brentq argsort13 twopi skin s i cells vec l v). Qed.
+
+  Theorem construct_mesh_depends_on_argument_arrays_only (s : @Heap F) c cells l :
+    resolve_cells s cells = Some l ->
+    snd (step s (OCm c cells))
+    = RCm (construct_mesh leb floorZ brentq argsort13 twopi skin (cm_with c l)).
+  Proof. exact (cm_outcome_resolved leb floorZ brentq argsort13 twopi skin s c cells l). Qed.
+
+  (* good_mg_cell_nr answers the table of its arguments after every history *)
+  Theorem good_table_after_any_history (h : list (@Op F)) (s : @Heap F) m p d :
+    snd (step (fst (run h s)) (OGood m p d))
+    = match good_mg_cell_nr m p d with Some l => RInts l | None => ValueErr end.
+  Proof. exact (good_outcome_any_history leb floorZ brentq argsort13 twopi skin h s m p d). Qed.
+
+  (* a call never modifies an array the caller holds (cell_numbers, vector,
+     earlier results): the heap only grows by the newly returned arrays *)
+  Theorem calls_never_modify_caller_arrays (s : @Heap F) op :
+    is_edit op = false -> exists new, fst (step s op) = (s ++ new)%list.
+  Proof. exact (call_keeps_heap leb floorZ brentq argsort13 twopi skin s op). Qed.
+
+  (* an in-place edit changes the one array it names (to the edited content) and
+     no other; so over a whole history an array nobody edits keeps its content *)
+  Theorem edit_changes_one_array (s : @Heap F) h e k :
+    (k <> h -> nth_error (fst (step s (OEdit h e))) k = nth_error s k) /\
+    length (fst (step s (OEdit h e))) = length s /\
+    nth_error (fst (step s (OEdit h e))) h
+    = match nth_error s h with
+      | Some (OInt l) => Some (OInt (edit_int e l))
+      | Some (ONum l) => Some (ONum (edit_num leb e l))
+      | None => None
+      end.
+  Proof.
+    exact (conj (edit_touches_one leb floorZ brentq argsort13 twopi skin s h e k)
+          (conj (edit_keeps_length leb floorZ brentq argsort13 twopi skin s h e)
+                (edit_result leb floorZ brentq argsort13 twopi skin s h e))).
+  Qed.
+
+  Theorem unedited_array_survives_history (ops : list (@Op F)) (s : @Heap F) k o :
+    (forall h e, In (OEdit h e) ops -> h <> k) ->
+    nth_error s k = Some o -> nth_error (fst (run ops s)) k = Some o.
+  Proof. exact (history_keeps_unedited leb floorZ brentq argsort13 twopi skin ops s k o). Qed.
+End SessionAny.
+Print Assumptions request_is_function_of_arguments.
+Print Assumptions request_depends_on_argument_arrays_only.
+Print Assumptions construct_mesh_depends_on_argument_arrays_only.
+Print Assumptions good_table_after_any_history.
+Print Assumptions calls_never_modify_caller_arrays.
+Print Assumptions edit_changes_one_array.
+Print Assumptions unedited_array_survives_history.
+
+(* the default table is p * 2^n <= 1024, p in {2,3,5}, n >= 3 -- a closed fact *)
+Theorem default_cell_numbers_rule x :
+  In x default_cells <->
+  exists p n, (p = 2 \/ p = 3 \/ p = 5)%Z /\ (3 <= n)%Z /\ x = (p * 2 ^ n)%Z /\ (x <= 1024)%Z.
+Proof. exact (default_cells_spec x). Qed.
+Print Assumptions default_cell_numbers_rule.
+
+Section SessionReal.
+  Variable floorZ : R -> Z.
+  Variable brentq : R -> R -> Z -> R.
+  Variable argsort13 : list R -> list nat.
+  Variable twopi : R.
+  Variable skin : R -> R.
+  Hypothesis brentq_bracket : forall t d n, 1 / 2 <= brentq t d n <= 10.
+  Notation step := (step gleb floorZ brentq argsort13 twopi skin).
+  Notation run := (run gleb floorZ brentq argsort13 twopi skin).
+
+  (* after EVERY history, a request without cell_numbers that returns a grid has
+     a permitted number of cells: p * 2^n <= 1024 with p in {2,3,5}, n >= 3 *)
+  Theorem default_request_permitted_after_any_history
+          (h : list (@Op R)) (s : @Heap R) i ws x0 hx nx sa ca n :
+    input_ok i ->
+    snd (step (fst (run h s)) (OOaw i CDefault VGiven)) = ROaw (mkOawOut ws (ROk x0 hx nx sa ca n)) ->
+    exists p k, (p = 2 \/ p = 3 \/ p = 5)%Z /\ (3 <= k)%Z
+                /\ Z.of_nat (length hx) = (p * 2 ^ k)%Z /\ (Z.of_nat (length hx) <= 1024)%Z.
+  Proof.
+    exact (default_request_permitted floorZ brentq argsort13 twopi skin brentq_bracket h s i ws x0 hx nx sa ca n).
+  Qed.
+
+  (* ... and with its own list / heap array: one of the numbers that array holds NOW *)
+  Theorem request_cell_count_from_argument (s : @Heap R) i cells l ws x0 hx nx sa ca n :
+    input_ok i -> resolve_cells s cells = Some l ->
+    snd (step s (OOaw i cells VGiven)) = ROaw (mkOawOut ws (ROk x0 hx nx sa ca n)) ->
+    In (Z.of_nat (length hx)) l.
+  Proof.
+    exact (request_cells_from_argument floorZ brentq argsort13 twopi skin brentq_bracket s i cells l ws x0 hx nx sa ca n).
+  Qed.
+End SessionReal.
+Print Assumptions default_request_permitted_after_any_history.
+Print Assumptions request_cell_count_from_argument.
+
+(* non-vacuity, executed on Q: the caller asks for the table, turns HIS array
+   into node numbers in place (arr += 1), asks again: the second answer is the
+   table, the edited array is the caller's; then a default request returns a grid
+   with 16 cells (domain of 16 unit cells, no buffer) *)
+Example session_example :
+  let ex_in := @mkOawIn Q [3%Q] 0%Q (Some (- (8#1), 8#1)%Q) None None None (1%Q, 3#2)%Q (LimOne 1%Q) 3%Q
+                        1%Q 0%Q false [] (Some true) true in
+  let r := GriddingSession.run qleb qfloor (fun _ _ _ => 1%Q) (fun _ => []) (6#1)%Q (fun x => x)
+             [OGood 1024 5 3; OEdit 0 (EAdd 1); OGood 1024 5 3; OOaw ex_in CDefault VGiven] [] in
+  nth_error (fst r) 0 = Some (OInt (map (fun x => (x + 1)%Z) default_cells)) /\
+  nth_error (fst r) 1 = Some (OInt default_cells) /\
+  nth_error (snd r) 2 = Some (RInts default_cells) /\
+  match nth_error (snd r) 3 with
+  | Some (ROaw (mkOawOut _ (ROk _ hx nx _ _ _))) => length hx = 16%nat /\ nx = 16%Z
+  | _ => False
+  end.
+Proof. vm_compute. repeat split; reflexivity. Qed.
+Print Assumptions session_example.
